@@ -423,7 +423,7 @@ def _is_full_slice(k):
 
 def getitem(a: SArr, key):
     if isinstance(key, SArr) and key.dtype == "bool":
-        return MaskedSel(a, key)
+        return MaskedSel(a, key)       # same-shape mask, or a 1-d mask selecting rows (axis 0)
     if isinstance(key, SArr) and key.ndim == 1 and a.ndim >= 1:
         # integer fancy index on the first axis
         kf = key.snapshot()
@@ -502,7 +502,38 @@ def getitem(a: SArr, key):
     return SArr(tuple(out_shape), None, a.dtype, base=a, inv=inv, fwd=fwd)
 
 
+def _fancy_key(key):
+    """1-d integer index list (python list of ints / symbolic-length list / int array) -> (length, getter) or None"""
+    if type(key).__name__ == "SList":
+        return key.n, key.fn
+    if isinstance(key, SArr) and key.dtype == "int" and key.ndim == 1:
+        f = key.snapshot()
+        return key.shape[0], (lambda t: f((t,)))
+    if isinstance(key, list) and key and all(isinstance(k, int) or is_sym(k) for k in key):
+        return len(key), (lambda t: key[t] if isinstance(t, int) else None)
+    return None
+
+
 def setitem(a: SArr, key, value):
+    fk = _fancy_key(key)
+    if fk is not None and a.ndim == 1 and is_num(value):
+        # a[index_list] = scalar : element i is overwritten iff some entry of the list equals i
+        import z3 as _z3
+        from . import values as _V
+        m, get = fk
+        old = a.snapshot()
+        if isinstance(m, int):
+            def fn(idx):
+                hit = sor(*[compare("==", get(t), idx[0]) for t in range(m)]) if m else False
+                return ite(hit, value, old(idx)) if hit is not False else old(idx)
+        else:
+            def fn(idx):
+                t = _z3.Int(_V.fresh_name("hit"))
+                body = compare("==", get(Sym(t)), idx[0])
+                hit = Sym(_z3.Exists([t], _z3.And(t >= 0, t < _V.lift(m), _V._bool_term(body))))
+                return ite(hit, value, old(idx))
+        a.assign_fn(fn)
+        return
     if isinstance(key, SArr) and key.dtype == "bool":
         mf = key.snapshot()
         old = a.snapshot()
